@@ -159,9 +159,6 @@ pub fn paint_color_string<'a>(
 
 impl fmt::Display for Style {
     fn fmt(&self, f: &mut fmt::Formatter) -> fmt::Result {
-        if self.is_raw {
-            return write!(f, "raw");
-        }
         let mut words = Vec::<String>::new();
         if self.is_omitted {
             words.push("omit".to_string());
@@ -200,6 +197,13 @@ impl fmt::Display for Style {
         }
         if let Some(color) = self.ansi_term_style.background {
             words.push(color::color_to_string(color))
+        }
+        if self.is_raw {
+            // `raw` may stand together with other words, which some elements honor.
+            if words == ["normal"] {
+                words.clear();
+            }
+            words.insert(0, "raw".to_string());
         }
         let style_str = words.join(" ");
         write!(f, "{style_str}")
